@@ -583,7 +583,7 @@ func C05(r *core.Run) {
 				if o2.missedAt == 0 {
 					first = "first"
 				}
-				r.Violate("C05:chunk-not-relayed:"+first+"-chunk:"+sizeClass(c.Chunks[o2.missedAt]), fmt.Sprintf("chunk %d (%d bytes) of %v was flushed by the backend but the proxy had observed only %d body bytes 10s later (and 5s in the first run)", o2.missedAt, c.Chunks[o2.missedAt], c.Chunks, o2.observed), c, nil)
+				r.Violate("C05:chunk-not-relayed:"+first+"-chunk:"+sizeClass(c2.Chunks[o2.missedAt]), fmt.Sprintf("chunk %d (%d bytes) of %v was flushed by the backend but the proxy had observed only %d body bytes 10s later (and 5s in the first run)", o2.missedAt, c2.Chunks[o2.missedAt], trimInts(c2.Chunks), o2.observed), c, nil)
 			case !o2.completed:
 				r.Violate("C05:response-did-not-complete", fmt.Sprintf("all chunks %v observed but the upload did not complete within 10s", c.Chunks), c, nil)
 			default:
@@ -786,3 +786,11 @@ func durUs(ds []time.Duration) []int64 {
 }
 
 var _ = atomic.AddInt64
+
+// trimInts shortens a long chunk list for messages.
+func trimInts(v []int) []int {
+	if len(v) > 24 {
+		return append(append([]int{}, v[:24]...), -len(v))
+	}
+	return v
+}
